@@ -5,7 +5,7 @@
    Exceptions that CPython would raise on JSON-like input are modelled
    explicitly (res monad); child validators consume one unit of fuel. *)
 From Coq Require Import List ZArith String Bool Ascii Lia.
-From Cerb Require Import Values PyOps Errors Tree Facts Regex.
+From Cerb Require Import Values PyOps Errors Tree Facts Regex Pool.
 Import ListNotations.
 Open Scope string_scope.
 Open Scope Z_scope.
@@ -117,7 +117,11 @@ Section WithFacts.
     match rule with
     | None => Ok (Err dp (SP sp0) code rule VNone value info children)
     | Some r =>
-        match assoc_get field (x_schema x) with
+        (* self._resolve_schema(self.schema).get(field, self.allow_unknown) *)
+        match (match assoc_get field (x_schema x) with
+               | Some rs0 => Some rs0
+               | None => Some (c_allow_unknown (x_cfg x))
+               end) with
         | None => Raise KeyError "_error"
         | Some rs0 =>
             match resolve_rules_set (x_cfg x) rs0 with
@@ -373,6 +377,36 @@ Section WithFacts.
     | _ => plain st
     end.
 
+  (** check_with: named pool functions (as method names or as callables), or a list of them *)
+  Fixpoint file_customs (x : ctx) (st : vstate) (field : key) (msgs : list string) : res vstate :=
+    match msgs with
+    | [] => Ok st
+    | m :: ms => do st' <- file_error x st field "CUSTOM" [VStr m] []; file_customs x st' field ms
+    end.
+
+  Definition check_one (x : ctx) (st : vstate) (c : value) (field : key) (v : value) : res vstate :=
+    match c with
+    | VStr name | VFun name =>
+        match pool_check name v with
+        | Some msgs => file_customs x st field msgs
+        | None => Raise RuntimeError "__get_rule_handler"
+        end
+    | _ => Raise TypeError "_validate_check_with"
+    end.
+
+  Fixpoint check_list (x : ctx) (st : vstate) (cs : list value) (field : key) (v : value) : res vstate :=
+    match cs with
+    | [] => Ok st
+    | c :: cs' => do st' <- check_one x st c field v; check_list x st' cs' field v
+    end.
+
+  Definition h_check_with (x : ctx) (st : vstate) (c : value) (field : key) (v : value) : res hout :=
+    do st' <- match c with
+              | VList cs => check_list x st cs field v
+              | _ => check_one x st c field v
+              end;
+    plain st'.
+
   (** dependencies *)
   Fixpoint deps_sequence (x : ctx) (st : vstate) (field : key) (deps : list value) : res vstate :=
     match deps with
@@ -622,6 +656,7 @@ Section WithFacts.
       else if String.eqb rule "maxlength" then h_maxlength x st c field v
       else if String.eqb rule "minlength" then h_minlength x st c field v
       else if String.eqb rule "regex" then h_regex x st c field v
+      else if String.eqb rule "check_with" then h_check_with x st c field v
       else if String.eqb rule "dependencies" then h_dependencies x st c field v
       else if String.eqb rule "excludes" then h_excludes x st c field v
       else if String.eqb rule "items" then h_items x st c field v
@@ -761,4 +796,12 @@ Section WithFacts.
         do st2 <- (if x_update x then Ok st1 else validate_required x st1);
         Ok (s_errs st2)
     end.
+
+  (* the validation part of validate() when normalization ran first: the error
+     list already holds the normalization errors (the trees are functions of it) *)
+  Definition validate_after (fuel : nat) (x : ctx) (errs0 : list error) : res (list error) :=
+    let st0 := {| s_errs := errs0; s_unreq := [] |} in
+    do st1 <- validate_fields (validate_ctx fuel) x st0 (x_doc x);
+    do st2 <- (if x_update x then Ok st1 else validate_required x st1);
+    Ok (s_errs st2).
 End WithFacts.
